@@ -47,12 +47,49 @@ def _deps(cls, name, depth=0, seen=None):
     return out
 
 
-def _excluded_keys(conds):
+def _inline_single_defs(func_node):
+    """{name: expression} for locals of the function that are bound exactly once by a plain assignment (flags such as
+    `fresh = bool(copy_operations or update)`), used to read a branch condition through its local names"""
+    seen = {}
+    for st in walk_shallow(func_node):
+        if isinstance(st, ast.Assign) and len(st.targets) == 1 and isinstance(st.targets[0], ast.Name):
+            seen.setdefault(st.targets[0].id, []).append(st.value)
+        elif isinstance(st, (ast.AugAssign, ast.AnnAssign)) and isinstance(st.target, ast.Name):
+            seen.setdefault(st.target.id, []).append(None)
+        elif isinstance(st, (ast.For, ast.With)):
+            for x in ast.walk(st.target if isinstance(st, ast.For) else ast.Module(body=[], type_ignores=[])):
+                if isinstance(x, ast.Name):
+                    seen.setdefault(x.id, []).append(None)
+    return {k: v[0] for k, v in seen.items() if len(v) == 1 and v[0] is not None}
+
+
+def _read_through(test, defs, depth=0):
+    """the condition with single-definition locals replaced by their definitions and bool(x) unwrapped"""
+    import copy as _copy
+
+    if depth > 3:
+        return test
+
+    class R(ast.NodeTransformer):
+        def visit_Name(self, n):
+            if isinstance(n.ctx, ast.Load) and n.id in defs and n.id != "update":
+                return _read_through(_copy.deepcopy(defs[n.id]), defs, depth + 1)
+            return n
+
+        def visit_Call(self, n):
+            self.generic_visit(n)
+            if isinstance(n.func, ast.Name) and n.func.id == "bool" and len(n.args) == 1 and not n.keywords:
+                return n.args[0]
+            return n
+    return R().visit(_copy.deepcopy(test))
+
+
+def _excluded_keys(conds, defs=None):
     """update keys that are certainly NOT being replaced under the conjunction of (test, polarity) conditions"""
     ALL = {"operations", "measurements", "shots", "trainable_params"}
     out = set()
     for test, pol in conds:
-        t = test
+        t = _read_through(test, defs) if defs else test
         neg = not pol
         while isinstance(t, ast.UnaryOp) and isinstance(t.op, ast.Not):
             t, neg = t.operand, not neg
@@ -67,9 +104,9 @@ def _excluded_keys(conds):
             if (isinstance(t.ops[0], ast.NotIn) and not neg) or (isinstance(t.ops[0], ast.In) and neg):
                 out.add(t.left.value)
         if isinstance(t, ast.BoolOp) and isinstance(t.op, ast.And) and not neg:
-            out |= _excluded_keys([(v, True) for v in t.values])
+            out |= _excluded_keys([(v, True) for v in t.values], defs)
         if isinstance(t, ast.BoolOp) and isinstance(t.op, ast.Or) and neg:
-            out |= _excluded_keys([(v, False) for v in t.values])
+            out |= _excluded_keys([(v, False) for v in t.values], defs)
     if "ops" in out:
         out.add("operations")
     return out
@@ -195,7 +232,7 @@ def cache_part(ix, rep, rule="R-C40-cache", slots=None, floor=3):
                 if not deps:
                     rep.unknown(rule, where, f"dependencies of `{comp}` not resolved")
                     continue
-                excl = _excluded_keys(cs)
+                excl = _excluded_keys(cs, _inline_single_defs(cp.node))
                 missing = sorted(deps - excl)
                 if missing:
                     falsy = sorted(set(missing) & _falsy_guard_keys(cs))
